@@ -3,6 +3,7 @@
 #pragma once
 #include <array>
 #include <cstring>
+#include <functional>
 #include <memory>
 #include <string>
 #include <unordered_map>
@@ -100,6 +101,7 @@ struct Sys {
     std::vector<Event> log;
     ExtMem ext;
     std::vector<uint8_t> user_memory; // when the instance runs on a caller-supplied buffer
+    std::function<void()> on_external;  // optional: called on every external (AHBM) access, e.g. to enforce a work budget
 
     explicit Sys(bool own_memory = true) {
         Teakra::UserConfig cfg;
@@ -117,25 +119,35 @@ struct Sys {
         t->SetAudioCallback([this](std::array<std::int16_t, 2> s) { log.push_back({'A', (uint16_t)s[0], (uint16_t)s[1], 0}); });
         Teakra::AHBMCallback cb;
         cb.read8 = [this](uint32_t a) {
+            if (on_external)
+                on_external();
             uint8_t v = ext.get(a);
             log.push_back({'r', 8, a, v});
             return v;
         };
         cb.write8 = [this](uint32_t a, uint8_t v) {
+            if (on_external)
+                on_external();
             log.push_back({'w', 8, a, v});
             ext.put(a, v);
         };
         cb.read16 = [this](uint32_t a) {
+            if (on_external)
+                on_external();
             uint16_t v = (uint16_t)(ext.get(a) | (ext.get(a + 1) << 8));
             log.push_back({'r', 16, a, v});
             return v;
         };
         cb.write16 = [this](uint32_t a, uint16_t v) {
+            if (on_external)
+                on_external();
             log.push_back({'w', 16, a, v});
             ext.put(a, (uint8_t)v);
             ext.put(a + 1, (uint8_t)(v >> 8));
         };
         cb.read32 = [this](uint32_t a) {
+            if (on_external)
+                on_external();
             uint32_t v = 0;
             for (int k = 0; k < 4; ++k)
                 v |= (uint32_t)ext.get(a + k) << (8 * k);
@@ -143,6 +155,8 @@ struct Sys {
             return v;
         };
         cb.write32 = [this](uint32_t a, uint32_t v) {
+            if (on_external)
+                on_external();
             log.push_back({'w', 32, a, v});
             for (int k = 0; k < 4; ++k)
                 ext.put(a + k, (uint8_t)(v >> (8 * k)));
